@@ -718,7 +718,10 @@ impl CompoundList {
     /// Returns the text that must follow this list when a keyword (`then`, `do`) comes next:
     /// a `;`, unless the list already ends with a `&` separator.
     fn terminator_before_keyword(&self) -> &'static str {
-        if matches!(self.0.last(), Some(CompoundListItem(_, SeparatorOperator::Async))) {
+        if matches!(
+            self.0.last(),
+            Some(CompoundListItem(_, SeparatorOperator::Async))
+        ) {
             ""
         } else {
             ";"
